@@ -11,6 +11,8 @@
 (*    and may or may not purge it                                          *)
 (*  - size / memory report the entries that are present; entries that are  *)
 (*    expired but were not looked up yet may or may not be counted         *)
+(*  - a tick of the background cleanup task ("sweep") purges the entries   *)
+(*    that are expired when it visits them, and nothing else               *)
 (*  - no operation fails.                                                  *)
 (*                                                                         *)
 (* Abstract state: m = function key -> [id, exp], id = 0 meaning absent.   *)
@@ -61,6 +63,9 @@ Outcomes(m, o) ==
     [] o.op = "clear" -> {[st |-> [k \in DOMAIN m |-> Absent], res |-> Ok]}
     \* a clear is recorded as one operation per key with the same interval: a sharded map empties shard by shard
     [] o.op = "clear_k" -> {[st |-> [m EXCEPT ![o.k] = Absent], res |-> Ok]}
+    \* one tick of a background cleanup task, recorded as one operation per key with the same interval (the
+    \* task visits the keys one after the other): an entry that is expired when its key is visited is purged
+    [] o.op = "sweep_k" -> {[st |-> IF m[o.k].id # 0 /\ m[o.k].exp THEN [m EXCEPT ![o.k] = Absent] ELSE m, res |-> Ok]}
     [] o.op = "size"  -> {[st |-> m, res |-> I(Cardinality(Present(m)))], [st |-> m, res |-> I(Cardinality(LivePresent(m)))]}
     [] o.op = "mem"   -> {[st |-> m, res |-> I(SumOf(m, Present(m)))], [st |-> m, res |-> I(SumOf(m, LivePresent(m)))]}
     [] OTHER -> {}
